@@ -1028,6 +1028,7 @@ func init() {
 			}
 			insts = append(insts, in)
 		}
+		stats["forms_in_table"] = len(db.rows)
 		stats["forms_eligible"] = len(eligible)
 		stats["instances_requested"] = len(sels)
 		stats["instances_built"] = len(insts)
